@@ -16,6 +16,8 @@
 //!   metadata names    -> scheme 0: v<7+i>.metadata.json (v8,v9,v10,.. lexicographic != numeric)
 //!                        scheme 1: <i-1 05>-<uuid>.metadata.json; scheme 2: <90-i 05>-<uuid>.metadata.json
 //!   snapshot ids      -> fixed 63-bit ids unrelated to commit order; timestamp-ms = 1.7e12 + ts
+//!   summary counts    -> snapshots[i].counts = [{m, c}]: c = 0 count fields absent from the list's schema,
+//!                        1 nullable and truthful, 2 nullable and null (v2 names; v1 tables use the v1 names)
 //!   an unreferenced data/orphan.parquet (x=999) is always present
 use crate::util::*;
 use apache_avro::types::Value as A;
@@ -154,7 +156,18 @@ fn manifest_entry_schema(fv: i64) -> apache_avro::Schema {
     apache_avro::Schema::parse_str(&s).unwrap_or_else(|e| panic!("manifest_entry schema: {e}"))
 }
 
-fn manifest_file_schema(fv: i64) -> apache_avro::Schema {
+/// v1 called the summary counts added_data_files_count / existing_data_files_count / deleted_data_files_count.
+fn count_names(fv: i64) -> [&'static str; 3] {
+    if fv >= 2 {
+        ["added_files_count", "existing_files_count", "deleted_files_count"]
+    } else {
+        ["added_data_files_count", "existing_data_files_count", "deleted_data_files_count"]
+    }
+}
+
+/// Manifest-list schema. The summary counts are OPTIONAL in Iceberg: `with_counts = false` leaves the fields
+/// out of the schema, otherwise they are nullable (null = unknown) and each entry says truthful or null.
+fn manifest_file_schema(fv: i64, with_counts: bool) -> apache_avro::Schema {
     let v2 = if fv >= 2 {
         r#"{"name":"content","type":"int","field-id":517},
            {"name":"sequence_number","type":"long","field-id":515},
@@ -162,16 +175,25 @@ fn manifest_file_schema(fv: i64) -> apache_avro::Schema {
     } else {
         ""
     };
+    let n = count_names(fv);
+    let counts = if with_counts {
+        format!(
+            r#",{{"name":"{}","type":["null","int"],"default":null,"field-id":504}},
+               {{"name":"{}","type":["null","int"],"default":null,"field-id":505}},
+               {{"name":"{}","type":["null","int"],"default":null,"field-id":506}}"#,
+            n[0], n[1], n[2]
+        )
+    } else {
+        String::new()
+    };
     let s = format!(
         r#"{{"type":"record","name":"manifest_file","fields":[
           {{"name":"manifest_path","type":"string","field-id":500}},
           {{"name":"manifest_length","type":"long","field-id":501}},
           {{"name":"partition_spec_id","type":"int","field-id":502}},
           {v2}
-          {{"name":"added_snapshot_id","type":["null","long"],"default":null,"field-id":503}},
-          {{"name":"added_files_count","type":["null","int"],"default":null,"field-id":504}},
-          {{"name":"existing_files_count","type":["null","int"],"default":null,"field-id":505}},
-          {{"name":"deleted_files_count","type":["null","int"],"default":null,"field-id":506}}
+          {{"name":"added_snapshot_id","type":["null","long"],"default":null,"field-id":503}}
+          {counts}
         ]}}"#
     );
     apache_avro::Schema::parse_str(&s).unwrap_or_else(|e| panic!("manifest_file schema: {e}"))
@@ -296,11 +318,17 @@ pub fn materialise(case: &Value, dir: &Path, pool: &Path) {
     }
 
     // manifest lists
-    let list_schema = manifest_file_schema(fv);
+    let list_schemas = [manifest_file_schema(fv, false), manifest_file_schema(fv, true)];
+    let cnames = count_names(fv);
     let mut list_uri: Vec<String> = vec![String::new()];
     for (si, s) in snapshots.iter().enumerate() {
         let si = si + 1;
         let mut recs = Vec::new();
+        // per entry: 0 = count fields absent (whole list), 1 = truthful, 2 = null (unknown)
+        let form_of = |mi: usize| -> i64 {
+            s["counts"].as_array().and_then(|a| a.iter().find(|c| c["m"].as_i64() == Some(mi as i64))).and_then(|c| c["c"].as_i64()).unwrap_or(1)
+        };
+        let with_counts = !ints(&s["mlist"]).iter().any(|mi| form_of(*mi as usize) == 0);
         for mi in ints(&s["mlist"]) {
             let mi = mi as usize;
             let (na, ne, nd) = manifest_counts[mi];
@@ -315,14 +343,18 @@ pub fn materialise(case: &Value, dir: &Path, pool: &Path) {
                 rec.push(("min_sequence_number".into(), A::Long(1)));
             }
             rec.push(("added_snapshot_id".into(), opt_long(snap_id(si as i64))));
-            rec.push(("added_files_count".into(), opt_int(na)));
-            rec.push(("existing_files_count".into(), opt_int(ne)));
-            rec.push(("deleted_files_count".into(), opt_int(nd)));
+            if with_counts {
+                let null = || A::Union(0, Box::new(A::Null));
+                let unknown = form_of(mi) == 2;
+                rec.push((cnames[0].into(), if unknown { null() } else { opt_int(na) }));
+                rec.push((cnames[1].into(), if unknown { null() } else { opt_int(ne) }));
+                rec.push((cnames[2].into(), if unknown { null() } else { opt_int(nd) }));
+            }
             recs.push(A::Record(rec));
         }
         let form = s["uri"].as_i64().unwrap();
         let rel = format!("metadata/snap-{}-1-{}.avro", snap_id(si as i64), "7d1e2f3a-bbbb-4ccc-8ddd-111111111111");
-        write_avro(&places(form, dir, &rel), &list_schema, recs, deflate, &[("format-version", fv.to_string())]);
+        write_avro(&places(form, dir, &rel), &list_schemas[with_counts as usize], recs, deflate, &[("format-version", fv.to_string())]);
         list_uri.push(uri_of(form, dir, &rel));
     }
 
